@@ -18,7 +18,7 @@ def mlmc_case(draw, tier, with_cv=True, modes=("adaptive", "adaptive", "adaptive
               path_dependent=False):
     law = {"seed": draw(st.integers(1, 10 ** 6)), "base": draw(_f(-1.0, 1.0)), "s_base": draw(_f(0.1, 2.0)),
            "m0": draw(_f(0.01, 1.0)), "alpha": draw(_f(0.5, 2.0)), "s0": draw(_f(0.05, 1.0)),
-           "beta": draw(_f(0.5, 3.0)), "cost0": 1.0, "gamma": draw(_f(0.0, 2.0)), "maturity": draw(_f(0.1, 2.0))}
+           "beta": draw(_f(0.5, 3.0)), "cost0": draw(st.sampled_from([1.0, 1.0, 0.01, 1e-4, 40.0])), "gamma": draw(_f(0.0, 2.0)), "maturity": draw(_f(0.1, 2.0))}
     mode = draw(st.sampled_from(list(modes)))
     l0 = draw(st.integers(2, 4))
     # Giles' criterion reads three level means (initial level >= 2, the default); with the "run to the maximum level"
